@@ -111,6 +111,15 @@ def group(no, choice="standard"):
     return _GROUPS[k]
 
 
+def aliases(no, choice):
+    """accepted spellings of this setting, derived from the naming rule and the table's own name (NOT from the
+    library's name dictionary, which is under test): the name itself, and name + 'h' for an R group on hexagonal axes"""
+    own = group(no, choice).name
+    if no in RHOMB and choice != "rhombohedral":
+        return [own, own + "h"]
+    return [own]
+
+
 def sibling(no, choice):
     """the other axis setting of an R-centred group (None for all other groups)"""
     if no in RHOMB:
